@@ -155,7 +155,7 @@ impl Property for C10 {
         "Generated: recursive JSON values (depth<=5, width<=6; integers over i64::MIN..u64::MAX with boundary bias; keys and strings \
          from Unicode text biased to escape-relevant characters; separate class with float/exponent/out-of-range literals), each rendered in \
          2-4 textual spellings (member order, whitespace, escape spelling incl. \\uXXXX upper/lower, surrogate pairs, \\/). Enumerated: all \
-         1,112,064 Unicode scalar values, 64 per case, once as string content and once as object key. History: in a third of the cases all member names and strings of the value first pass through the library's other canonical writer (the signing encoding) as artifact paths, environment names and command arguments of a link that is signed in the same process. Oracle: every spelling -> Json::from_slice \
+         1,112,064 Unicode scalar values, 64 per case, once as string content and once as object key. History: in a third of the cases all member names and strings of the value first pass through the library's other canonical writer (the signing encoding) as artifact paths, environment names and command arguments of a link that is signed in the same process. Json::to_writer must write exactly Json::canonicalize's bytes and fail exactly when it fails. Oracle: every spelling -> Json::from_slice \
          / from_reader -> Json::canonicalize gives identical bytes; an independent strict scanner accepts them (valid JSON, no whitespace, members \
          strictly increasing by code point, integers only) and decodes the original value; re-canonicalising the parsed output is idempotent; \
          documents with a non-integer number are rejected. Non-trivial: nesting>=2, or an object with >=2 members or a non-ASCII key, or an \
@@ -243,7 +243,17 @@ impl Property for C10 {
             if raw2.as_ref().ok() != Some(&raw) || raw != direct {
                 o.fail("C10/parse/channels-differ", format!("{:?}", t), "equal values from from_slice/from_reader/serde_json");
             }
-            outputs.push(Json::canonicalize(&raw).map_err(|e| e.to_string()));
+            let canon = Json::canonicalize(&raw).map_err(|e| e.to_string());
+            // the writer entry point must produce exactly the canonical bytes, or fail exactly when canonicalisation fails
+            let mut written: Vec<u8> = vec![];
+            match (Json::to_writer(&mut written, &raw), &canon) {
+                (Ok(()), Ok(b)) if &written == b => {}
+                (Err(_), Err(_)) => {}
+                (Ok(()), Ok(b)) => o.fail("C10/to_writer/differs-from-canonical-bytes", format!("{:?} vs {:?}", String::from_utf8_lossy(&written), String::from_utf8_lossy(b)), "Json::to_writer writes Json::canonicalize's bytes"),
+                (Ok(()), Err(e)) => o.fail("C10/to_writer/writes-what-canonicalize-rejects", format!("wrote {:?} although canonicalize fails with {}", String::from_utf8_lossy(&written), e), "Err"),
+                (Err(e), Ok(_)) => o.fail("C10/to_writer/rejects-canonicalisable-value", format!("{}", e), "the canonical bytes"),
+            }
+            outputs.push(canon);
         }
         if !with_num {
             let mut first: Option<&Vec<u8>> = None;
